@@ -450,6 +450,26 @@ def sys_selftest(ctx, runs):
     raise Infra('binding self-test: no converged system trace with a non-trivial sample')
 
 
+def restart_selftest(ctx, runs):
+    """The restart finding must not swallow anything but what it describes: an instance of it with one entry fewer handed over
+    (a skipped entry that a later write covers) or without convergence has to be refused by the finding's own configuration."""
+    cfg = PROPOSED[0]['pattern']['trace_cfg']
+    for r in runs:
+        if any(e['e'] == 'rrestart' for e in r) and r[-1]['e'] == 'conv' and \
+                not validate_batch(ctx, 'TRACE_Repl', cfg, [r], 'kf-selftest0', bad_events=BAD):
+            r1 = copy.deepcopy(r)
+            r1[-1]['rcount'] -= 1
+            r2 = copy.deepcopy(r)
+            r2[-1] = {'e': 'noconv'}
+            for rr, name in ((r1, 'skipped entry'), (r2, 'missing convergence')):
+                if not validate_batch(ctx, 'TRACE_Repl', cfg, [rr], 'kf-selftest', bad_events=BAD):
+                    raise Infra(f'self-test failed: the restart finding accepts a trace with a {name}')
+            ctx.notes['binding_selftest_restart_finding'] = ('an instance of KF_C13_restart_from_one with one entry fewer handed over, or without '
+                                                             'convergence, is refused by the finding\'s configuration (reported as a violation)')
+            return
+    ctx.notes['binding_selftest_restart_finding'] = 'not run: no restart scenario of this run is an instance of the restart finding'
+
+
 def sys_stats(ctx, jobs, runs):
     for j, r in zip(jobs, runs):
         if len(r) > 6:
@@ -599,6 +619,8 @@ def check_C13(ctx):
     sys_stats(ctx, jobs, runs)
     judge(ctx, 'C13', jobs, runs, rerun_sys(ctx), 'c13sys')
     sys_selftest(ctx, runs)
+    if not ctx.violations:
+        restart_selftest(ctx, runs)
     ctx.samples.append([e for e in runs[2] if e['e'] != 'wret'][:14])
     write_evidence(ctx, 'model_checking',
                    'KevoRepl model-checked exhaustively (AppliedIsPrefix, NoSplitBatch, ExpectedFollowsApplied, ReportedLeApplied, '
@@ -630,6 +652,8 @@ def check_C14(ctx):
     sys_stats(ctx, jobs, runs)
     judge(ctx, 'C14', jobs, runs, rerun_sys(ctx), 'c14sys')
     sys_selftest(ctx, runs)
+    if not ctx.violations:
+        restart_selftest(ctx, runs)
     if not any(any(e['e'] == 'flush' for e in r) for r in runs) or not any(any(e['e'] == 'w' and len(e['op']) > 1 for e in r) for r in runs):
         raise Infra('vacuous: no scenario with a flush / a multi-key transaction')
     ctx.samples.append([e for e in runs[3] if e['e'] != 'wret'][:14])
